@@ -154,6 +154,7 @@ def plan(tier, seed):
         (corner("mixed", prefix=A.GG, name="mixed-two-globals"), A.two_globals(), 3),
         (corner("mixed", prefix=A.GLD, name="mixed-dmm"), A.timing(dmm=True, faults=False), 2),
         (corner("unit", prefix=A.GL), tG, 2),
+        (corner("real", prefix=A.LL, name="real-two-locals"), A.two_locals(), 4),
     ]
     if tier == "thorough":
         worlds = [(w, a, d + 1) for w, a, d in worlds]
